@@ -98,7 +98,7 @@ Value& OpEXPExpression::value(Context& ctx) const
       {
         if (a2.isNull() || a1.isNull())
           return LVAL2(Value(Value::type_integer), a1, a2);
-        Value val(Integer(std::pow(*a1.integer(), *a2.integer())));
+        Value val(Value::powInteger(*a1.integer(), *a2.integer()));
         return LVAL2(val, a1, a2);
       }
       case Type::IMAGINARY:
